@@ -1,4 +1,5 @@
 import StatimeModel.Lemmas.ServoL
+import StatimeModel.Generated.ServoConsts
 /-
 C02 — A slave port drives its clock to the master's time and keeps it there.
 
@@ -303,6 +304,16 @@ theorem noise_sample_needs_close_pair_sync (A : Arith) (e e' : Est) (m : Meas) (
         | true =>
           have := closeInTime_spec _ _ _ hc
           exact ⟨time, dof, so, rfl, rfl, this.1, this.2⟩
+
+
+/-! tie to the source: how the three kinds of measurement relate to the estimator's state (offset, frequency, delay) -
+the rows `MEASUREMENT_SYNC`, `MEASUREMENT_DELAY`, `MEASUREMENT_PEER_DELAY` of kalman.rs as extracted on this run, and
+that each `absorb_*` function uses its own row. A Sync offset is offset + delay, a Delay_Resp offset is offset − delay,
+a peer delay is the delay itself: with any other sign the servo settles the clock a multiple of the path delay away
+from the master. -/
+theorem measurement_rows_match_source :
+    Generated.measurementRows = some (hSync ++ hDelay ++ hPeer) ∧ Generated.measurementRowUse = true := by
+  decide
 
 
 end Statime.C02
